@@ -47,6 +47,14 @@ def judge(ctx, got, want, instance, where, detail=None, key=None):
     return ok
 
 
+def truth_of(ev, v):
+    """three-valued truth of a value in the bounds of a run (a comparison that would need a finer regime is simply undecided here)"""
+    try:
+        return ev.truth(v)
+    except S.NeedSplit:
+        return None
+
+
 def scen_txt(kind, cplx):
     return f"{'complex' if cplx else 'real'} {kind} input"
 
@@ -312,8 +320,7 @@ def r3_string_headers(ctx):
                     pa = lr.put[1]
                     judge(ctx, (pa[1], pa[2]), (first, run.col), f"{rdfn.name} <- {tag}: converts the 1-based first row and column back to 0-based", lr.put[3])
                     if run.binary:
-                        judge(ctx, pa[3], (F.fn("seq", arr),), f"{rdfn.name} <- {tag}: reads exactly the doubles the writer packed", lr.put[3]) if False else \
-                            judge(ctx, unseq(pa[3]), arr, f"{rdfn.name} <- {tag}: reads exactly the doubles the writer packed", lr.put[3])
+                        judge(ctx, unseq(pa[3]), arr, f"{rdfn.name} <- {tag}: reads exactly the doubles the writer packed", lr.put[3])
                     else:
                         judge(ctx, pa[4], nreal, f"{rdfn.name} <- {tag}: reads the announced number of reals", lr.put[3])
                 else:
@@ -422,12 +429,12 @@ def r3_string_headers(ctx):
                         # the loop runs while words remain and stops when the count reaches zero
                         for a_id in (nw.n.atoms() if sp is not None else ()):
                             lr.W.bounds.setdefault(a_id, (1, None))
-                        t_more = lr.ev.truth(btest)
+                        t_more = truth_of(lr.ev, btest)
                         ub = unfn(btest)
                         at_zero = None
                         if ub and ub[0].startswith("cmp:") and len(ub[1]) == 2:
                             l0, r0_ = [F.const(0) if same(x, nw) else x for x in ub[1]]
-                            at_zero = lr.ev.cmp_truth(ub[0][4:], l0, r0_)
+                            at_zero = truth_of(lr.ev, F.fn(ub[0], l0, r0_))
                         ok = t_more is True and at_zero is False
                         ctx.check(ok, f"{rdfn.name} <- {tag}: strings are read while words remain and the loop stops when the count reaches zero", node,
                                   None if ok else {"test": repr(btest)[:160], "with words left": t_more, "at zero": at_zero})
@@ -452,8 +459,8 @@ def r3_string_headers(ctx):
                         ctx.error(f"{rdfn.name} <- {tag}: column loop", rdfn)
                 else:
                     n, b, a = lp[0]
-                    t0 = lr.ev.truth(b)
-                    t1 = lr.ev.truth(a) if a is not None else None
+                    t0 = truth_of(lr.ev, b)
+                    t1 = truth_of(lr.ev, a) if a is not None else None
                     ok = t0 is True and t1 is False
                     if ok and is_rat(a):
                         # the column number taken from the next (here: the sentinel) header is 0-based like the first one
@@ -774,8 +781,8 @@ def triplet_source(src, W):
             if u[0] == "idx" and len(u[1]) == 2:
                 a, ix = u[1]
                 ua = unfn(a)
-                if ua and ua[0] in ("call:sp.find", "call:scipy.sparse.find", "call:find") and const_int(ix) == k:
-                    base = ("find", ua[1][0] if ua[1] else None)
+                if ua and ua[0] in ("call:sp.find", "call:scipy.sparse.find", "call:find") and const_int(ix) is not None:
+                    base = ("find" if const_int(ix) == k else "find-misplaced", ua[1][0] if ua[1] else None)
                     break
                 u = ua
                 continue
@@ -786,6 +793,8 @@ def triplet_source(src, W):
         bases.append(base)
     if all(b is not None and b[0] == "find" for b in bases):
         return True, None
+    if all(b is not None and b[0] in ("find", "find-misplaced") for b in bases):
+        return False, "the (row, col, value) components of scipy.sparse.find are not passed on in that order"
     if all(b is not None and b[0].startswith("attr:") for b in bases):
         objs = [b[1] for b in bases]
         # the object the attributes are read from: was .sum_duplicates() called on it before?
